@@ -109,7 +109,39 @@ let show_obs buf st =
         Buffer.add_char buf (uniq_mark t);
         show_tree buf t) (observe depth st)
 
+let kind_of_int = function
+  | 0 -> IEq | 1 -> IArg | 2 -> ITrackedArg | 3 -> IUpdateIndex | 4 -> IOp1Cont | 5 -> IOp2FirstCont
+  | 6 -> IOp2SecondCont | 7 -> IOpNCont | 8 -> IStrChunk | _ -> IStrAcc
+
+let sop_of_int n =
+  if n < 10 then Some (SPush (kind_of_int n))
+  else if n < 20 then Some (SPop (kind_of_int (n - 10)))
+  else match n with
+    | 20 -> Some SPopArg | 21 -> Some SPopArgIdx | 22 -> Some SPeek | 23 -> Some SClearEqs
+    | 24 -> Some SUnwind | 25 -> Some SDropTop | 26 -> Some SIsTopIdx | 27 -> Some SIsTopCont
+    | _ -> None
+
+(* mode "stack": one script per line (decimal bytes separated by `.`), model of Mem/Stack.v *)
+let stack_mode () =
+  try
+    while true do
+      let line = String.trim (input_line stdin) in
+      let bytes = List.filter (fun s -> s <> "") (String.split_on_char '.' line) in
+      let ops = List.filter_map (fun s -> sop_of_int (int_of_string s)) bytes in
+      (match srun O ops [] with
+       | SOk (tr, _) ->
+           print_string (String.concat ";" (List.map (fun (c, ms) ->
+             Printf.sprintf "%d:%s" (int_of_nat c)
+               (String.concat "." (List.map (fun m -> string_of_int (int_of_nat (marker_num m))) ms))) tr))
+       | SErr TypeConfusion -> print_string "!TypeConfusion"
+       | SErr UnknownPairing -> print_string "!UnknownPairing"
+       | SPanic -> print_string "!PanicEmptyRead");
+      print_newline ()
+    done
+  with End_of_file -> ()
+
 let () =
+  if Array.length Sys.argv > 1 && Sys.argv.(1) = "stack" then (stack_mode (); exit 0);
   if Array.length Sys.argv > 1 && Sys.argv.(1) = "nohook" then nohook := true;
   try
     while true do
